@@ -26,12 +26,47 @@ def operand_src(v):
     return f'(get "{v["dec"]}".{PARSE[v["kind"]]}())'
 
 
+TYNAME = {"int": "int", "bigint": "bigint", "byte": "byte", "float": "float"}
+
+
+def holder_mode(c):
+    """where the operands live when the operator reads them: 0 variables, 1 left operand in a list element,
+    2 right operand in an object field, 3 both in list elements (a deterministic rotation over the cases)"""
+    import zlib
+    return zlib.crc32(case_id(c).encode()) % 4
+
+
 def program(c):
+    mode = holder_mode(c)
     a = operand_src(c["a"])
-    if c["op"] == "neg":
-        return f"a = {a}\nprint \"go\"\nprint (-a)\n"
-    b = operand_src(c["b"])
-    return f"a = {a}\nb = {b}\nprint \"go\"\nprint (a {c['op']} b)\n"
+    lines = [f"a0 = {a}"]
+    unary = c["op"] == "neg"
+    if not unary:
+        lines.append(f"b0 = {operand_src(c['b'])}")
+    ea, eb = "a0", "b0"
+    if mode in (1, 3):
+        lines += [f"la: [{TYNAME[c['a']['kind']]}...] = [a0]", "k0 = 0"]
+        ea = "la[k0]"
+    if not unary and mode == 3:
+        lines += [f"lb: [{TYNAME[c['b']['kind']]}...] = [b0]"]
+        eb = "lb[k0]"
+    if mode == 2:
+        who = "a" if unary else "b"
+        kind = c[who]["kind"]
+        lines += ["class Hold {", f"\tf: {TYNAME[kind]}", f"\tconstructor(self, f: {TYNAME[kind]}) {{", "\t\tself.f = f", "\t}", "}", f"hd = Hold({who}0)"]
+        if unary:
+            ea = "hd.f"
+        else:
+            eb = "hd.f"
+    lines.append('print "go"')
+    expr = f"(-{ea})" if unary else f"({ea} {c['op']} {eb})"
+    lines.append(f"r = {expr}")
+    # the operand slots are read again after the operator ran
+    lines.append(f"print ({ea}) == a0")
+    if not unary:
+        lines.append(f"print ({eb}) == b0")
+    lines.append("print r")
+    return "\n".join(lines) + "\n"
 
 
 def observe(binary, root, c):
@@ -46,7 +81,7 @@ def observe(binary, root, c):
     ev = [e for e in corpus.read_ndjson(tr) if e.get("e") == "print"]
     lines = r["out"].splitlines()
     reached = "go" in lines
-    ob = dict(exit=r["exit"], reached=reached, err=C.strip_ansi(r["err"])[-400:], out=lines)
+    ob = dict(exit=r["exit"], reached=reached, err=C.strip_ansi(r["err"])[-400:], out=lines, intact=True)
     if r["timeout"]:
         ob["status"] = "timeout"
     elif r["exit"] == 0 and len(ev) >= 2:
@@ -63,6 +98,7 @@ def observe(binary, root, c):
         else:
             val = dict(kind=k, dec=e["text"])
         ob["status"], ob["val"] = "ok", val
+        ob["intact"] = all(x["text"] == "true" for x in ev[1:-1])
     elif r["exit"] != 0 and reached:
         ob["status"], ob["val"] = "fail", dict(kind="none")
     else:
@@ -94,7 +130,7 @@ def run(tier, replay=None):
         else:
             judged.append(c)
     f = work / "cases.ndjson"
-    C.write_ndjson(f, [dict(id=c["id"], op=c["op"], a=c["a"], b=c["b"], obs=dict(status=c["obs"]["status"], val=c["obs"]["val"])) for c in judged])
+    C.write_ndjson(f, [dict(id=c["id"], op=c["op"], a=c["a"], b=c["b"], obs=dict(status=c["obs"]["status"], val=c["obs"]["val"], intact=bool(c["obs"].get("intact", True)))) for c in judged])
     r = C.tlc("CheckNum", "CheckNum", work / "judge", env=dict(CASES=str(f)), workers=12, timeout=3000, heap_mb=10000)
     if r.error or r.invariant_violated:
         raise C.ToolError(f"CheckNum: {r.error or r.invariant_violated}")
